@@ -356,7 +356,8 @@ class SymmetryTranslator:
         ret: SymmetryTranslator.Inequalities = defaultdict(list)
         for lit in body:
             if lit.ast_type == ASTType.Literal and lit.atom.ast_type == ASTType.Comparison:
-                assert len(lit.atom.guards) == 1
+                if len(lit.atom.guards) != 1:
+                    continue  # negated comparison chain
                 atom = lit.atom
                 guard = atom.guards[0]
                 if atom.term.ast_type != ASTType.Variable or guard.term.ast_type != ASTType.Variable:
